@@ -249,6 +249,18 @@ pub fn run(tier: Tier) -> Run {
         &mut nontrivial,
     );
 
+    // interleaved lookups: the same number through one table, then the other, then the first again
+    for n in (0..=0xFFFFu32).chain([0x1_0000, 0x1_001F, u32::MAX]) {
+        evals += 3;
+        let wg = gd.glsl.iter().find(|e| e.opcode == n).map(|e| e.name.as_str());
+        let wc = gd.opencl.iter().find(|e| e.opcode == n).map(|e| e.name.as_str());
+        let g1 = g::GlslStd450InstructionTable::lookup_opcode(n).map(|e| e.opname);
+        let c1 = g::OpenCLStd100InstructionTable::lookup_opcode(n).map(|e| e.opname);
+        let g2 = g::GlslStd450InstructionTable::lookup_opcode(n).map(|e| e.opname);
+        if g1 != wg || g2 != wg || c1 != wc {
+            run.add(viol(format!("C09:ext:#{}:interleaved", n), format!("number {}: GLSL {:?} / OpenCL {:?} / GLSL again {:?}; declared GLSL {:?}, OpenCL {:?}", n, g1, c1, g2, wg, wc), json!({"kind": "c09-ext-interleaved", "number": n})));
+        }
+    }
     run.set("evaluations", json!(evals));
     run.set("distinct_nontrivial", json!(nontrivial));
     run.set("rule", json!("every 16-bit opcode number through lookup_opcode; every declared Op through get; every table entry through iter; ext-inst numbers [0,2^16) plus each declared number +-1, |2^16, |2^31 and u32::MAX through lookup/get and the GLOp/CLOp enumerations. non-trivial = numbers for which an entry exists (distinct entries compared field by field with the golden)"));
